@@ -24,7 +24,7 @@ ANCHORS = ["hashtable.py::HashTable.__init__", "hashtable.py::HashTable._build_r
            "hashtable.py::HashTable.__eq__", "hashtable.py::HashTable.items", "hashtable.py::HashTable.to_dict", "hashtable.py::zeros_like", "hashtable.py::ones_like"]
 OPS = ["get1", "getv", "getmiss", "set1", "setv", "setvv", "fill", "contains", "hs_contains1", "hs_containsv", "zeros_like", "ones_like", "add", "eq", "items", "to_dict", "getwide", "getreuse", "deepcopy", "pickle", "format"]
 FLOOR_TAGS = ["op:" + o for o in OPS] + ["init:scalar", "init:array", "mod:None", "mod:1", "mod:explicit", "keys:neg", "keys:big", "keys:dense", "keys:small",
-                                         "kd:int8", "kd:uint64", "kd:list", "kd:int64", "state:scalar-at-first-write", "derived-table-used", "values:infinite"]
+                                         "kd:int8", "kd:uint64", "kd:list", "kd:int64", "state:scalar-at-first-write", "derived-table-used", "values:infinite", "class:Counter"]
 FLOOR_MONITORS = ["c11:eq-other-keys", "c11:step", "c11:readback", "c11:keyset", "c11:must-refuse", "c11:caller-arrays"]
 FP_STRICT = True       # a floating-point event inside the library that the dense computation does not have is a violation (shard.FpMonitor)
 N_RANDOM = {"quick": 4000, "thorough": 100000}
@@ -59,7 +59,10 @@ def run(case):
     kw = {} if mod is None else {"mod": mod}
     kin = karr(keys, kd)
     vin = init if scalar_init else np.array(init, dtype=vdt)
-    c = attempt(lambda: lib.HashTable(kin, vin, **kw))
+    TABLE = lib.Counter if (case.get("cls") == "Counter" and vdt.kind in "iu" and (scalar_init is False or isinstance(init, int))) else lib.HashTable
+    if TABLE is lib.Counter:
+        tags.append("class:Counter")       # a Counter is a HashTable: everything the statement says about tables holds for it as well
+    c = attempt(lambda: TABLE(kin, vin, **kw))
     desc0 = "HashTable(keys=%s %s, values=%s, mod=%s)" % (kd, short(keys, 120), short(init, 80), mod)
     if not c.ok:
         return violated("%s raised %r" % (desc0, c), tags)
@@ -224,10 +227,10 @@ def run(case):
             if op.get("scalar_other") is not None:
                 # both operands may be in the hidden scalar state; the constant may be of another type than the left operand's values
                 other_vals = [op["scalar_other"]] * len(keys)
-                t2 = lib.HashTable(karr(keys, kd), op["scalar_other"], **kw)
+                t2 = (TABLE if (TABLE is lib.HashTable or np.asarray(op["scalar_other"]).dtype.kind in "iu") else lib.HashTable)(karr(keys, kd), op["scalar_other"], **kw)
                 tags.append("add:scalar-valued-operand")
             else:
-                t2 = lib.HashTable(karr(keys, kd), np.array(other_vals, dtype=vdt), **kw)
+                t2 = (TABLE if (TABLE is lib.HashTable or np.asarray(other_vals).dtype.kind in "iu") else lib.HashTable)(karr(keys, kd), np.array(other_vals, dtype=vdt), **kw)
             a = attempt(lambda: tb + t2)
             if not a.ok:
                 bad = "table + table2 raised %r" % a
@@ -245,7 +248,7 @@ def run(case):
                 i_ = op["differ"] % len(keys)
                 vals2[i_] = vals2[i_] + 1 if np.isfinite(vals2[i_]) else 0
             vdt_ = vdt if all(float(v_) == int(v_) for v_ in vals2 if np.isfinite(v_)) and all(np.isfinite(v_) for v_ in vals2) else np.dtype("float64")
-            t2 = lib.HashTable(karr(keys, kd), np.array(vals2, dtype=vdt_), **kw)
+            t2 = (TABLE if (TABLE is lib.HashTable or np.asarray(vals2).dtype.kind in "iu") else lib.HashTable)(karr(keys, kd), np.array(vals2, dtype=vdt_), **kw)
             a = attempt(lambda: bool(tb == t2))
             want = op["differ"] is None
             if not a.ok or a.value != want:
@@ -426,7 +429,10 @@ def gen_history(rng, tier, kd="pick", style=None, mod="pick", scalar_init=None, 
         elif name == "eq":
             op["differ"] = None if rng.random() < 0.5 else rng.randrange(n)
         ops.append(op)
-    return {"keys": keys, "kdtype": kd, "mod": mod, "init": init, "vdtype": vdtype, "nonkeys": nonkeys, "ops": ops, "style": style}
+    c_ = {"keys": keys, "kdtype": kd, "mod": mod, "init": init, "vdtype": vdtype, "nonkeys": nonkeys, "ops": ops, "style": style}
+    if vdtype != "float64" and rng.random() < 0.15:
+        c_["cls"] = "Counter"
+    return c_
 
 
 def directed():
